@@ -253,6 +253,41 @@ def run(model, col, tier):
     for later in ("ValidateVariableNames",):
         col.check("UpdateLocations" in ap and later in ap and ap.index("UpdateLocations") < ap.index(later), "R20.3", f"nsl/Compiler.py::astPasses UpdateLocations < {later}",
                   "locations are completed before positions are reported", f"UpdateLocations does not run before {later}", "nsl/Compiler.py", pipe.cls.node)
+    # passes that build new AST nodes before the diagnostics are produced run before UpdateLocations (their nodes get a hull too)
+    rewriters = []
+    for pname in ap:
+        pf_ = model.files.get(pipe.pass_file(pname))
+        if pf_ is None:
+            continue
+        if any(isinstance(c, ast.Call) and isinstance(c.func, ast.Attribute) and isinstance(c.func.value, ast.Name) and c.func.value.id == "ast"
+               and c.func.attr.endswith(("Expression", "Statement")) for c in ast.walk(pf_.tree)):
+            rewriters.append(pname)
+    col.floor("R20.3", "AST-rewriting passes", len(rewriters), 1)
+    if "UpdateLocations" in ap and "ValidateVariableNames" in ap:
+        late = [p_ for p_ in rewriters if ap.index("UpdateLocations") < ap.index(p_) < ap.index("ValidateVariableNames")]
+        col.check(not late, "R20.3", "nsl/Compiler.py::astPasses rewriting passes precede UpdateLocations", f"rewriters {rewriters}: none between UpdateLocations and the diagnostics",
+                  f"{late} builds new nodes after UpdateLocations ran and before positions are reported: the rewritten composites keep an unknown location although their parts are located", "nsl/Compiler.py", pipe.cls.node)
+    # a node's location is whatever was set last (the hull computed by UpdateLocations replaces the parser's partial location)
+    node_cls = model.cls(ASTF, "Node")
+    sl, gl = node_cls.own_method("SetLocation"), node_cls.own_method("GetLocation")
+    slp = sl.args.args[1].arg
+    real = [s_ for s_ in sl.body if not isinstance(s_, (ast.Assert, ast.Expr))]
+    uncond = len(real) == 1 and isinstance(real[0], ast.Assign) and isinstance(real[0].targets[0], ast.Attribute) and unparse(real[0].value) == slp
+    fld_ = real[0].targets[0].attr if uncond else None
+    gret = [r.value.attr for r in ast.walk(gl) if isinstance(r, ast.Return) and isinstance(r.value, ast.Attribute)]
+    col.check(uncond and gret == [fld_], "R20.3", f"{ASTF}::Node.SetLocation/GetLocation", "SetLocation stores its argument unconditionally in the field GetLocation returns",
+              "SetLocation does not always store the new location (or GetLocation reads another field): the hull computed for a composite node is dropped and its range stays that of one part", ASTF, sl)
+    # the text that is parsed is the text the caller gave (positions are reported against it)
+    cc_ = pipe.compile
+    srcp = cc_.args.args[1].arg
+    prs_ = [c for c in ast.walk(cc_) if isinstance(c, ast.Call) and last_attr(c) == "Parse" and c.args]
+    rebound_ = any(isinstance(n, ast.Name) and isinstance(n.ctx, ast.Store) and n.id == srcp for n in ast.walk(cc_))
+    from ..sem import local_env as _le20b, rtext as _rt20b
+
+    col.check(bool(prs_) and all(_rt20b(c.args[0], _le20b(cc_)) == srcp for c in prs_) and not rebound_, "R20.2", "nsl/Compiler.py::Compiler.Compile parses the source as given",
+              "parser.Parse(source) with the caller's string",
+              f"the parser receives `{_rt20b(prs_[0].args[0], _le20b(cc_)) if prs_ else '?'}`, not the caller's text: every reported line:column refers to a transformed text", "nsl/Compiler.py", cc_)
+    pipe.makepass_process(col, "R20.4")
     # ---------------- R20.4 ----------------------------------------------------
     add = model.cls(NAMES, "ValidateVariableNamesVisitor.Context").own_method("Add")
     rs = [c for c in ast.walk(add) if isinstance(c, ast.Call) and last_attr(c) == "Raise"]
